@@ -1210,6 +1210,10 @@ func isTypeName(x ast.Expr) bool {
 		return true
 	case *ast.SelectorExpr:
 		return isTypeName(t.X)
+	case *ast.IndexExpr: // an instantiated generic type: G[int]{..}
+		return isTypeName(t.X)
+	case *ast.IndexListExpr: // P[K, V]{..}
+		return isTypeName(t.X)
 	}
 	return false
 }
